@@ -117,9 +117,9 @@ def _kv(pid, text, model_chk=False, extra=None):
 
 
 PROPS = {
-    "C01": _kv("C01", "Full proof on the model: for every history (any collections, keys, entry points, arguments, clocks, size limits, purges, drops, expiry firings) every read answers from the current document, every failed/refused call leaves the document's complete view unchanged, and every successful write is what the next read-back shows (C01_holds, by a per-call theorem over all entry points and document states lifted by induction over histories). A purge takes away only body-less documents (store-level theorem C05_purge; its trace-level check is validated on model traces by evaluation). Tied to the code by differential execution of generated histories with full read-back after every step.", model_chk=True),
+    "C01": _kv("C01", "Full proof on the model: for every history (any collections, keys, entry points, arguments, clocks, size limits, purges, drops, expiry firings) every read answers from the current document, every failed/refused call leaves the document's complete view unchanged, and every successful write is what the next read-back shows (C01_holds, by a per-call theorem over all entry points and document states lifted by induction over histories). A purge takes away only body-less documents (store-level theorem C05_purge; the trace-level purge rule is proved sound too: C01_holds_with_purge). Tied to the code by differential execution of generated histories with full read-back after every step.", model_chk=True),
     "C02": _kv("C02", "Sequential part proved in full on the model: a conditional write (every entry point that carries an expected CAS) that succeeds had an expected CAS equal to the document's current CAS (0 = no document; for WriteCas no live document), and one that fails changes nothing (C02_holds, all histories). The two-writer race: for every schedule of the conditional-write loop a successful write was made on the CAS it read (Conc.v, C03); on the code, the lin family's certificate check includes the one-winner rule (no two successful conditional writes carry the same expected CAS) under real goroutine races, WithMeta writers included.", extra=[{"family": "lin"}]),
-    "C05": _kv("C05", "Full proof on the model: in every reachable store the tombstone column equals 'value IS NULL' (C05_flag_iff_nobody), and every history is accepted by the checker: deletion opcode iff no body, Delete/Remove keep exactly the system xattrs and clear the expiry, a body write onto a body-less key leaves only the supplied xattrs (C05_holds); PurgeTombstones removes exactly the body-less rows (C05_purge, on the store; its trace-level check is validated on model traces by evaluation).", model_chk=True),
+    "C05": _kv("C05", "Full proof on the model: in every reachable store the tombstone column equals 'value IS NULL' (C05_flag_iff_nobody), and every history is accepted by the checker: deletion opcode iff no body, Delete/Remove keep exactly the system xattrs and clear the expiry, a body write onto a body-less key leaves only the supplied xattrs (C05_holds); PurgeTombstones removes exactly the body-less rows (C05_purge on the store, and the trace-level purge rule: C05_holds_with_purge).", model_chk=True),
     "C06": _kv("C06", "Full proof on the model: for every history an insert-style write (Add, AddRaw, WriteCas AddOnly / cas 0, WriteResurrectionWithXattrs) succeeds only on a key without a body and a refusal happens only on a key with a body and leaves it untouched; WriteWithXattrs cas 0 succeeds only on an absent key (C06_holds)."),
     "C07": _kv("C07", "Full proof on the model: an xattr-only write changes exactly the named xattrs and keeps body, datatype and (unless given) expiry; a body-only write to a live document keeps its xattrs; a failed call changes nothing (C07_holds; frame lemmas over apply_xattrs / xattrs_remove for all xattr maps and name lists). Macro expansion values are compared exactly by the correspondence (CAS string and CRC32c computed in Coq)."),
     "C08": _kv("C08", "Sequential part proved in full on the model: every successful CAS-stamping call posts exactly one event equal to the rendering of the document as stored (key, opcode, body, xattrs, datatype bits, CAS, expiry, revision), every failed/refused call and every touch posts none (C08_holds, all histories). Ordering part: Feed.v splits a write into Commit / Snapshot / Push and a feed into Backfill / Register / Deliver / Stop as the code does; the full statement (every interleaving keeps CAS order) is REFUTED on the faithful model with a replayable witness (C08_order_refuted: the known finding KF-C08-order, reproduced on the code by the sched family through the cas.beforePost / post.snapshot hooks), and every schedule outside that window is checked: the sched family executes generated action lists on the real code under the hooks and compares deliveries, CAS values and checkpoints exactly with the model.", extra=[{"family": "sched", "chk": "sched_excused_C08", "strict_chk": "sched_strict_C08"}]),
@@ -130,7 +130,7 @@ PROPS = {
         "level_note": "Kill = SIGKILL of the process, not power loss: the OS page cache survives, so fsync behaviour is not exercised. Timer firings (multi-transaction sweeps) are excluded from crash histories. Trusted: Coq kernel + vm_compute, Go harness, SQLite.",
         "assumptions": ["SQLite commits atomically and durably with respect to process kill (WAL mode)", "every mutating call is one transaction (checked by the kill points, not proved)", "the child's scripted clock and the recorded wall-clock second of each step stand for time in the model"],
     },
-    "C11": _kv("C11", "Proved on the model's store for every reachable store and every entry point: a call addressed to collection c leaves documents, backfill, identity and feeds of every other collection unchanged (C11_frame); DropDataStore removes exactly the collection's rows and entry (C11_drop); re-creation yields a fresh id with no documents (C11_recreate). Views and SQL queries of other collections are covered under C12/C19 models. The executable trace checker is evaluated on implementation and model traces (acceptance of model traces checked by evaluation).", model_chk=True),
+    "C11": _kv("C11", "Proved on the model's store for every reachable store and every entry point: a call addressed to collection c leaves documents, backfill, identity and feeds of every other collection unchanged (C11_frame); DropDataStore removes exactly the collection's rows and entry (C11_drop); re-creation yields a fresh id with no documents (C11_recreate). Views and SQL queries of other collections are covered under C12/C19 models. The executable trace checker (rows, dump order and collection list outside the addressed collection unchanged; a drop removes exactly the collection; a creation yields an empty one; events carry the addressed collection's id) is proved to accept every history of the model (C11_checker_accepts_every_model_history, KvTrace.v) and is run on the implementation's traces.", model_chk=True),
     "C18": _kv("C18", "Proved on Json.v for all documents, paths and values: a sub-document write leaves every property on a diverging path unchanged (C18_frame), the addressed property reads back as the written value (C18_set) or as absent after removal (C18_remove); CAS honoured / failure changes nothing is the C02 theorem (C18_cas). The trace checker restates WriteSubDoc/SubdocInsert/GetSubDocRaw as upsert_path/eval_path over the parsed read-back and is evaluated on implementation and model traces (acceptance of model traces checked by evaluation). The concurrent no-lost-update half is part of the interleaving model: partial.", model_chk=True),
     "C13": {
         "families": [{"family": "reg", "model_chk": True, "model_chk_fn": "kv_model_chk_reg"}],
